@@ -2,9 +2,14 @@
 Correspondence: run_contingency_parallel(n_procs=2) with the Pool replaced by an in-process pool that runs the
 real worker function in a *shuffled completion order* and returns the packs in task order (the Pool.map
 contract); recorded packs -> C15.Model.run_par, compared exactly with the returned dict.
+Chunking: run_contingency_parallel through an in-process stand-in that reproduces Pool.map's chunking (chunk size by
+CPython's rule or forced, one unpickled copy of the worker function and its net PER CHUNK, chunks started in a shuffled
+order on randomly assigned workers, results concatenated in task order); the packs it returns are compared exactly with
+C15.Chunk.pool_map_chunked (work_copy) evaluated on the logged evaluation table, and the returned dict with the
+sequential run_contingency for every (n_procs, chunk size) tried.
 Oracle: the same net through real multiprocessing (n_procs 2,3), n_procs=1 and run_contingency: all keys and
 values equal."""
-import math, random, hashlib
+import math, random, hashlib, pickle
 import numpy as np, pandas as pd
 import pandapower as pp
 from fractions import Fraction
@@ -13,12 +18,16 @@ from props import c14
 
 RULE = ("deterministic stub evaluation (values are a hash of the in_service pattern; NaN, raising outages, out-of-service "
         "elements, shuffled indices); packs recorded at the worker boundary; non-trivial = at least 2 successful packs and a "
-        "masked observation; real multiprocessing runs with n_procs in {1,2,3} compared with run_contingency")
+        "masked observation; chunked in-process pool with n_procs in {2,3,4} and chunk sizes {default,1,2,3,5,all} (non-trivial "
+        "there = some chunk holds at least 2 tasks); real multiprocessing runs with n_procs in {1,2,3} compared with run_contingency")
 ASSUMPTIONS = ["multiprocessing.Pool.map returns results in task order (validated: real pools are run and compared)",
                "the evaluation function is deterministic in the net state (true for runpp; the stub is a hash of the state)"]
-TRUSTED = ["in-process replacement of mp.Pool for the correspondence part; real mp.Pool for the oracle part"]
+TRUSTED = ["in-process replacement of mp.Pool for the correspondence part; real mp.Pool for the oracle part",
+           "the chunked stand-in _ChunkPool transcribes CPython's Pool._map_async/_get_tasks/mapstar (chunk size rule, one "
+           "unpickled copy of the partial and its net per chunk); that real worker processes share nothing else is validated "
+           "only by the real-pool runs"]
 ET = c14.ET
-_CFG = {"seed": 0, "raise_p": 0.0, "base": None, "sleep": 0.0}
+_CFG = {"seed": 0, "raise_p": 0.0, "base": None, "sleep": 0.0, "log": None}
 
 
 def _key(net):
@@ -33,12 +42,21 @@ def det_stub(net, **kw):
     if _CFG["sleep"] and k != _CFG["base"] and h % 4 == 0:
         import time
         time.sleep(_CFG["sleep"])      # makes workers complete out of task order
+    log = _CFG.get("log")
     if k != _CFG["base"] and r.random() < _CFG["raise_p"]:
+        if log is not None:
+            log.append((k, sorted(kw.items(), key=repr), None))
         raise RuntimeError("stub raise")
+    allv = []
     for t in ("line", "trafo", "trafo3w"):
         if len(net[t]):
-            net["res_" + t] = pd.DataFrame({"loading_percent": c14._gen_vals(r, net, t)}, index=net[t].index)
-    net["res_bus"] = pd.DataFrame({"vm_pu": c14._gen_vals(r, net, "bus")}, index=net.bus.index)
+            v = c14._gen_vals(r, net, t)
+            allv += v
+            net["res_" + t] = pd.DataFrame({"loading_percent": v}, index=net[t].index)
+    v = c14._gen_vals(r, net, "bus")
+    net["res_bus"] = pd.DataFrame({"vm_pu": v}, index=net.bus.index)
+    if log is not None:
+        log.append((k, sorted(kw.items(), key=repr), allv + v))
 
 
 class _FakePool:
@@ -90,6 +108,48 @@ class _FakePool:
 
     def starmap(self, func, tasks):
         return self.map(lambda a: func(*a), tasks)
+
+
+class _ChunkPool:
+    """in-process stand-in for multiprocessing.Pool that reproduces Pool.map's chunking (CPython Pool._map_async /
+    _get_tasks / mapstar): the tasks are cut into consecutive chunks; every chunk is one job whose function object —
+    the functools.partial holding the net — is pickled and unpickled once PER CHUNK; a chunk's tasks run in order on
+    that copy; chunks are started in a shuffled order on randomly assigned workers; results come back in task order."""
+    rng = None
+    force_chunksize = None
+    record = None
+
+    def __init__(self, processes=None):
+        self.processes = processes or 1
+
+    def __enter__(self):
+        return self
+
+    def __exit__(self, *a):
+        return False
+
+    def map(self, func, tasks, chunksize=None):
+        tasks = list(tasks)
+        cs = chunksize if chunksize is not None else _ChunkPool.force_chunksize
+        if cs is None:
+            cs, extra = divmod(len(tasks), self.processes * 4)
+            if extra:
+                cs += 1
+        if len(tasks) == 0:
+            cs = 0
+        chunks = [tasks[i:i + cs] for i in range(0, len(tasks), cs)] if cs else []
+        order = list(range(len(chunks)))
+        _ChunkPool.rng.shuffle(order)
+        assign = [_ChunkPool.rng.randrange(self.processes) for _ in chunks]
+        blob = pickle.dumps(func)
+        res = {}
+        for ci in order:
+            f = pickle.loads(blob)            # what the worker process does with the job it takes from the queue
+            res[ci] = [f(t) for t in chunks[ci]]
+        out = [p for ci in range(len(chunks)) for p in res[ci]]
+        _ChunkPool.record = {"chunksize": cs, "chunks": chunks, "order": order, "assign": assign, "packs": out,
+                             "processes": self.processes}
+        return out
 
 
 def _opts(rng):
@@ -208,6 +268,94 @@ def _corr_case(ctx, rng):
     return term, impl, desc
 
 
+_ROWT = ("line", "trafo", "trafo3w", "bus")      # row order of the state vector = order of _key
+
+
+class _LazyJson:
+    """the net as json, produced only when a case is written out"""
+    def __init__(self, net):
+        self.net = net
+
+    def __str__(self):
+        return pp.to_json(self.net)
+
+
+def _chunk_case(ctx, rng):
+    """chunked pool stand-in vs C15.Chunk.pool_map_chunked; the returned dict vs sequential run_contingency"""
+    import pandapower.contingency.contingency_parallel as cp
+    from pandapower.contingency import run_contingency
+    net, tabs, cases = _mk(rng, big=rng.random() < 0.6)
+    _CFG.update(seed=rng.randrange(10 ** 9), raise_p=rng.choice([0.0, 0.2, 0.4]), base=_key(net), sleep=0.0, log=None)
+    call = _opts(rng)
+    import copy
+    ref = _canon(run_contingency(copy.deepcopy(net), cases, contingency_evaluation_function=det_stub, **call))
+    off, k0 = {}, 0
+    for t in _ROWT:
+        off[t] = k0
+        k0 += len(net[t])
+    out = []
+    for cfg in range(2):
+        n_procs = rng.choice([2, 3, 4])
+        n2 = copy.deepcopy(net)
+        ntasks = sum(1 for t, v in cases.items() for i in v["index"] if n2[t].at[i, "in_service"])
+        _ChunkPool.force_chunksize = rng.choice([None, None, 1, 2, 3, 5, max(1, ntasks)])
+        _ChunkPool.rng = random.Random(rng.randrange(10 ** 9))
+        _ChunkPool.record = None
+        _CFG["log"] = []
+        orig = cp.mp.Pool
+        cp.mp.Pool = _ChunkPool
+        try:
+            res = cp.run_contingency_parallel(n2, cases, contingency_evaluation_function=det_stub, n_procs=n_procs, **call)
+        finally:
+            cp.mp.Pool = orig
+            log, _CFG["log"] = _CFG["log"], None
+        rec = _ChunkPool.record
+        desc = {"net": _LazyJson(net), "cases": {t: [int(i) for i in v["index"]] for t, v in cases.items()}, "n_procs": n_procs,
+                "stub": {"seed": _CFG["seed"], "raise_p": _CFG["raise_p"]}, "call": {k: repr(v) for k, v in call.items()},
+                "chunksize": rec and rec["chunksize"], "order": rec and rec["order"], "assign": rec and rec["assign"]}
+        small = {k: desc[k] for k in ("cases", "n_procs", "chunksize", "order", "assign", "stub")}
+        if rec is None:
+            ctx.violation("spec", "run_contingency_parallel(n_procs=%d) did not call Pool.map" % n_procs, desc)
+            continue
+        ctx.case(small, nontrivial=any(len(c) >= 2 for c in rec["chunks"]) and len(rec["chunks"]) >= 2)
+        ctx.count("chunk_cfg_size_%s_chunks_%d" % (min(rec["chunksize"], 4), min(len(rec["chunks"]), 6)))
+        got = _canon(res)
+        if got != ref:
+            diff = [(el, k) for el in ref for k in ref[el] if got.get(el, {}).get(k) != ref[el][k]]
+            ctx.violation("spec", "run_contingency_parallel (n_procs=%d, chunks of %d, in-process chunked pool) differs from "
+                          "run_contingency in %s" % (n_procs, rec["chunksize"], diff[:4]), desc)
+        for t in tabs:
+            if not (n2[t].in_service.values == net[t].in_service.values).all():
+                ctx.violation("spec", "in_service of %s changed by run_contingency_parallel (chunked pool)" % t, desc)
+        # ---- model: the evaluation function as the table of everything the real run evaluated with N-1 options
+        tasks = [(t, i) for ch in rec["chunks"] for (t, i) in ch]
+        nm1kw = log[0][1] if log else None
+        tb, seen = [], set()
+        for k, kw, vals in log[:-1]:           # the last evaluation is the N-0 one
+            if kw == nm1kw and k not in seen:
+                seen.add(k)
+                flags = [x for part in k for x in part]
+                tb.append("(%s, %s)" % (cq.lst([cq.b(x) for x in flags]),
+                                        "None" if vals is None else "(Some %s)" % cq.lst([cq.oq(x) for x in vals])))
+        st0 = cq.lst([cq.b(x) for part in _key(net) for x in part])
+        tterm = cq.lst(["((%s, %s), %s)" % (cq.nat(ET[t]), cq.z(i), cq.nat(off[t] + list(net[t].index).index(i))) for t, i in tasks])
+        term = "run_chunked_out (work_copy (ev_table %s)) false %s %s %s %s %s" % (
+            cq.lst(tb), st0, cq.nat(rec["chunksize"]), cq.lst([cq.nat(a) for a in rec["assign"]]),
+            cq.lst([cq.nat(a) for a in rec["order"]]), tterm)
+        impl_packs = []
+        for p in rec["packs"]:
+            lab = [ET[p["case"][0]], int(p["case"][1])]
+            if not p["success"]:
+                impl_packs.append([lab, None])
+            else:
+                fl = [bool(x) for t in _ROWT if t in p.get("in_service", {}) for x in p["in_service"][t]]
+                vs = [_fr(float(x)) for t in _ROWT if t in p["res_vals"] for x in p["res_vals"][t]["vm_pu" if t == "bus" else "loading_percent"]]
+                impl_packs.append([lab, [fl, vs]])
+        impl = [[[int(i) for _, i in ch] for ch in rec["chunks"]], impl_packs]
+        out.append((term, impl, desc))
+    return out
+
+
 def _real_pool_case(ctx, rng):
     import pandapower.contingency.contingency_parallel as cp
     from pandapower.contingency import run_contingency
@@ -266,11 +414,21 @@ def run(ctx):
         terms.append(t)
         impls.append(i)
         descs.append(d)
-    model = ctx.coq_eval("c15", "Base.QN C14.Model C15.Model", terms, shard=100)
+    chunked = []
+    for k in range(ctx.n(30, 700)):
+        chunked += _chunk_case(ctx, rng)
+    allmodel = ctx.coq_eval("c15", "Base.QN C14.Model C15.Model C15.Chunk", terms + [c[0] for c in chunked], shard=ctx.n(100, 200))
+    model, cmodel = allmodel[:len(terms)], allmodel[len(terms):]
     for d, i, m in zip(descs, impls, model):
         ctx.corr_checked += 1
         if c14._js(i) != c14._js(m):
             ctx.disagreement("parallel aggregation differs from C15.Model.run_par on the recorded packs: impl=%s model=%s" % (c14._js(i)[:300], c14._js(m)[:300]), d)
+    for (term, impl, d), m in zip(chunked, cmodel):
+        ctx.corr_checked += 1
+        if c14._js(impl) != c14._js(m):
+            what = "chunk split" if not isinstance(m, list) or c14._js(impl[0]) != c14._js(m[0]) else "worker packs"
+            ctx.disagreement("chunked Pool.map (%s) differs from C15.Chunk.pool_map_chunked with the per-task-copy worker: impl=%s model=%s" % (
+                what, c14._js(impl)[:400], c14._js(m)[:400]), d)
     for k in range(ctx.n(8, 150)):
         _real_pool_case(ctx, rng)
     for k in range(ctx.n(4, 80)):
